@@ -8,11 +8,7 @@ type CharClassItem struct {
 	To   rune
 }
 
-func (i *CharClassItem) RunPass(ctx *Context, pass Pass) {
-	if pass == Check && i.From > i.To {
-		ctx.Errs.Errorf(ctx.Position(i), "invalid character range: lower bound is above upper bound")
-	}
-}
+func (i *CharClassItem) RunPass(ctx *Context, pass Pass) {}
 
 type CharClass struct {
 	baseAST
@@ -21,6 +17,16 @@ type CharClass struct {
 }
 
 func (t *CharClass) RunPass(ctx *Context, pass Pass) {
+	if pass == Check {
+		for _, item := range t.CharClassItems {
+			if item.From > item.To {
+				// Items carry no position of their own; report at the class.
+				ctx.Errs.Errorf(
+					ctx.Position(t),
+					"invalid character range: lower bound is above upper bound")
+			}
+		}
+	}
 	RunPass(ctx, t.CharClassItems, pass)
 }
 
